@@ -7,8 +7,10 @@
    kind 11 zargs [L]            class used by Put for a buffer of arbitrary length L
    kind 2  zargs [nOut; minPool; maxFields; ops...]   allocator script (NewRecord / fill / Release)
    kind 3  pipeline: see mem_decode_pipeline
-   kind 4  oracle-only cases (long-lived vs fresh on configurations outside the model): echo *)
-From SV Require Import Model.Common Model.Memory.
+   kind 4  oracle-only cases (long-lived vs fresh on configurations outside the model): echo
+   kind 5  pipeline as kind 3 whose first transformation is  parseTime key: time  (a transform instance with state
+           across records, Model/MemoryXfState.v): see pt_case_pipeline *)
+From SV Require Import Model.Common Model.Memory Model.MemoryStores Model.ParseTime Model.MemoryXfState.
 Open Scope N_scope.
 
 Definition mem_hash (s : bytes) : N := fold_left (fun h b => (h * 131 + b + 1) mod 1000000007) s 7.
@@ -469,6 +471,90 @@ Definition mem_case_pipeline (ss : list bytes) (zs : list Z) : bytes :=
   | None => bad_case_output
   end.
 
+(* ---------------- kind 5: pipeline with a parseTime instance ----------------
+   Same arguments as kind 3.  The worker runs parseTime (on field 2, "time") before the other transformations; the
+   instance state is threaded through the whole stream.  Timestamps are unix * 10^9 + nsec; printed as the Fluentd
+   EventTime holds them: t<seconds mod 2^32>[n<nanoseconds>]. *)
+Definition pt_case_cfg : pt_config :=
+  {| pt_local_off := 0; pt_hash := fun _ => 0; pt_zone_keep := KeepCopy; pt_last_keep := None |}.
+Definition pt_time_field : nat := 2.
+Definition pt_giga : Z := 1000000000.
+
+Definition pt_print_decoded (d : mem_decoded) : bytes :=
+  let sec := ((d_ts d / pt_giga) mod 4294967296)%Z in
+  let nsec := (d_ts d mod pt_giga)%Z in
+  116 :: dec_of_Z sec ++ (if (nsec =? 0)%Z then [] else 110 :: dec_of_Z nsec) ++ [91]
+      ++ join comma (map mem_print_kv (d_fields d)) ++ [93;91]
+      ++ join comma (map mem_print_kv (d_env d)) ++ [93].
+
+Fixpoint pt_do_outputs (c : mem_config) (g : mem_gstate) (h : nat) (k : nat) (n : nat) (acc : bytes)
+  : mem_gstate * bytes * option mem_stop :=
+  match n with
+  | O => (g, acc, None)
+  | S n' =>
+    let rc := r_refc (mem_slot_rec g h) in
+    match mem_step c g (EvOutput h) with
+    | StepOk g1 =>
+      let d := match last (g_out g1) (0%nat, 0%nat, {| d_ts := 0; d_fields := []; d_env := [] |}) with (_, _, d) => d end in
+      pt_do_outputs c g1 h (S k) n'
+        (acc ++ mem_slash :: 79 :: mem_dec_nat k ++ colon :: dec_of_Z rc ++ colon :: pt_print_decoded d)
+    | StepStop s => (g, acc ++ mem_stop_text s, Some s)
+    end
+  end.
+
+Fixpoint pt_batch_work (c : mem_config) (g : mem_gstate) (st : pt_state) (items : list (bytes * option nat)) (acc : list bytes)
+  : mem_gstate * pt_state * list bytes * option mem_stop :=
+  match items with
+  | [] => (g, st, acc, None)
+  | (txt, None) :: items' => pt_batch_work c g st items' (acc ++ [txt])
+  | (txt, Some h) :: items' =>
+    match pt_transform pt_case_cfg g st h pt_time_field with
+    | None => (g, st, acc ++ [txt ++ mem_stop_text NotEnabled], Some NotEnabled)
+    | Some (_, TpPanic s, _, _) => (g, st, acc ++ [txt ++ mem_stop_text (GoPanic s)], Some (GoPanic s))
+    | Some (st1, _, _, g0) =>
+      match mem_step c g0 (EvTransform h) with
+      | StepOk g1 =>
+        if mem_is_live g1 h && match nth_error (g_slots g1) h with
+                               | Some {| sl_rec := _; sl_state := SLive l |} => match l_phase l with PhOut _ => true | _ => false end
+                               | _ => false end
+        then
+          match pt_do_outputs c g1 h 0 (length (c_outputs c)) [] with
+          | (g2, otxt, None) => pt_batch_work c g2 st1 items' (acc ++ [txt ++ otxt ++ mem_final_text g2 h])
+          | (g2, otxt, Some s) => (g2, st1, acc ++ [txt ++ otxt], Some s)
+          end
+        else pt_batch_work c g1 st1 items' (acc ++ [txt ++ mem_slash :: 68 :: mem_final_text g1 h])
+      | StepStop s => (g, st1, acc ++ [txt ++ mem_stop_text s], Some s)
+      end
+    end
+  end.
+
+Fixpoint pt_run_batches (c : mem_config) (g : mem_gstate) (st : pt_state) (ins : list (bytes * Z)) (batches : list nat) (acc : list bytes)
+  : list bytes * option mem_stop :=
+  match batches with
+  | [] => (acc, None)
+  | b :: batches' =>
+    match mem_batch_parse c g (firstn b ins) [] with
+    | (g1, items, None) =>
+      match pt_batch_work c g1 st items [] with
+      | (g2, st2, txts, None) => pt_run_batches c g2 st2 (skipn b ins) batches' (acc ++ txts)
+      | (_, _, txts, Some s) => (acc ++ txts, Some s)
+      end
+    | (_, items, Some s) => (acc ++ map fst items, Some s)
+    end
+  end.
+
+Definition pt_case_pipeline (ss : list bytes) (zs : list Z) : bytes :=
+  match mem_decode_pipeline ss zs with
+  | Some pc =>
+    let ins := map (fun it => (fst it, (snd it * pt_giga)%Z)) (pc_inputs pc) in
+    match pt_run_batches (pc_cfg pc) (mem_init (pc_cfg pc)) pt_init ins (pc_batches pc) [] with
+    | (txts, None) => [112;116;58] (* "pt:" *) ++ join mem_semi txts
+    | (_, Some Fault) | (_, Some (GoPanic _)) | (_, Some NegativeRefCount) | (_, Some PoolIndexPanic) => mem_crash_text
+    | (txts, Some s) => [112;116;58] ++ join mem_semi txts ++ mem_stop_text s
+    end
+  | None => bad_case_output
+  end.
+
 Definition run_case_C12 (c : case) : bytes :=
   match c_kind c with
   | 1 => mem_case_class (Z.to_N (zarg c 0))
@@ -476,5 +562,6 @@ Definition run_case_C12 (c : case) : bytes :=
   | 2 => mem_case_script (c_zargs c)
   | 3 => mem_case_pipeline (c_sargs c) (c_zargs c)
   | 4 => [105;115;111;58] (* "iso:" *) ++ dec_of_Z (zarg c 0)
+  | 5 => pt_case_pipeline (c_sargs c) (c_zargs c)
   | _ => bad_case_output
   end.
